@@ -239,6 +239,18 @@ def check_case(case):
                             'edit %r is not committed to under ht=0x%02x %s (signed input %d, %d in/%d out, %s) but verification now fails'
                             % (name, ht, htname, idx, len(m['vin']), len(m['vout']), tname))
         cls.append(('must-fail:' if committed else 'must-pass:') + htname)
+    # the signed POSITION no longer exists (the inputs from it onwards removed, the caller still asks about the same index): the
+    # signature cannot hold - and the refusal is a validation error like any other
+    if idx >= 1:
+        m3 = dict(copy.deepcopy(m), vin=list(m['vin'][:idx]))
+        d3, _ = RS.legacy(code, m3, idx, ht)      # the consensus digest for a position that does not exist is the constant 1 ...
+        for mut_ in (False, True):
+            ok3 = _verify(m3, idx, ssig, spk, mut_)
+            if ok3 != (d3 == d0):                  # ... which is also what a SIGHASH_SINGLE signature without matching output signed
+                raise Violation('%s/position-removed/%s' % ('committed-edit-accepted' if ok3 else 'uncommitted-edit-rejected', htname),
+                                'VerifyScript %s input %d of a transaction that now has %d inputs' % ('accepts' if ok3 else 'rejects', idx, idx))
+        evals += 2
+        cls.append('position-removed')
     # a signature from a key that is not a member
     fk = case['foreign']
     z, _ = RS.legacy(code, m, idx, ht)
